@@ -456,6 +456,8 @@ def compare(case, ir, mr):
                 return f"returned assertion {a} of contest {cid} is not an assertion over the declared candidates"
             if y["vW"] != a["vW"] or y["vL"] != a["vL"]:
                 return f"returned assertion {a} of contest {cid}: model tallies vW={y['vW']} vL={y['vL']}"
+            if y["W"] != a["rW"] or y["L"] != a["rL"]:
+                return f"returned assertion {a} of contest {cid}: model re-applied tallies W={y['W']} L={y['L']}"
     return None
 
 
